@@ -76,6 +76,7 @@ def merge(results):
         for k, v in r["counters"].items():
             m["counters"][k] = m["counters"].get(k, 0) + v
         m["distinct"].update(r["distinct"])
+        m["bulk"] = m.get("bulk", 0) + r.get("bulk_distinct", 0)
         for k, v in r["samples"].items():
             cur = m["samples"].setdefault(k, [])
             for s in v:
@@ -142,7 +143,7 @@ def conclude(mod, prop, tier, seed, results, problems, wall, nshards):
         reasons.append("case budget exhausted before all cases ran")
     if unmet:
         reasons.append("deciding monitors not reached: " + ", ".join(f"{k}={a}<{b}" for k, (a, b) in unmet.items()))
-    distinct_n = len(m["distinct"])
+    distinct_n = len(m["distinct"]) + m.get("bulk", 0)
     if m["evaluations"] < 1 or distinct_n < 2:
         reasons.append(f"too few observations (evaluations={m['evaluations']}, distinct={distinct_n})")
     # evidence
@@ -155,6 +156,7 @@ def conclude(mod, prop, tier, seed, results, problems, wall, nshards):
         "distinct_nontrivial": distinct_n,
         "rule": mod.RULE,
         "samples": samples[:40],
+        "distinct_breakdown": {"hashed_cases": len(m["distinct"]), "enumerated_tuples_distinct_by_construction": m.get("bulk", 0)},
         "class_counters": dict(sorted(m["counters"].items())),
         "contract_evaluations": m["contracts"]["evals"],
         "cross_observations_other_properties": {"counts": m["contracts"]["cross"], "first": m["contracts"]["cross_sample"]},
